@@ -477,6 +477,8 @@ func runBinary(tool string, args []string, files map[string]string, outFile stri
 		attempts = 40
 	}
 	for a := 0; a < attempts; a++ {
+		// an attempt that was killed may have created (and not finished) the output file: never read a leftover
+		os.Remove(filepath.Join(dir, outFile))
 		cmd := exec.Command(filepath.Join(binDir, tool), args...)
 		cmd.Dir = dir
 		done := make(chan struct{})
@@ -641,7 +643,7 @@ func evaluate(s source) verdict {
 			}
 		}
 	}
-	if s.FrontEnd == "neuralbond" && bm != nil {
+	if s.FrontEnd == "neuralbond" && bm != nil && netFullyLinked(s.Text) {
 		// the generator creates exactly the ports its links need: a processor input nobody drives or a processor
 		// output nobody reads means a link of the net was lost on the way
 		driven := map[int]bool{}
@@ -667,6 +669,37 @@ func evaluate(s source) verdict {
 		v.fails = append(v.fails, wfFail{"unfittable-source-accepted", "the source mentions an operand that cannot fit (" + s.Class + ") but a machine was emitted"})
 	}
 	return v
+}
+
+// netFullyLinked: every node of the net that is not an input has a weight coming in and every node that is not an
+// output has one going out. Only then does the source itself promise that every port of the emitted machine is
+// connected (the example net-testnormal.json has no weights into its output layer: its machine mirrors that).
+func netFullyLinked(text string) bool {
+	var net struct {
+		Nodes []struct {
+			Layer, Pos int
+			Type       string
+		}
+		Weights []struct{ Layer, PosCurrLayer, PosPrevLayer int }
+	}
+	if json.Unmarshal([]byte(text), &net) != nil {
+		return false
+	}
+	in, out := map[[2]int]bool{}, map[[2]int]bool{}
+	for _, w := range net.Weights {
+		in[[2]int{w.Layer, w.PosCurrLayer}] = true
+		out[[2]int{w.Layer - 1, w.PosPrevLayer}] = true
+	}
+	for _, n := range net.Nodes {
+		k := [2]int{n.Layer, n.Pos}
+		if n.Type != "input" && !in[k] {
+			return false
+		}
+		if n.Type != "output" && !out[k] {
+			return false
+		}
+	}
+	return true
 }
 
 func lastLine(s string) string {
